@@ -243,6 +243,9 @@ def run(F, R, tier):
                 ok, det = True, "propagated with `?`"
             elif kind in ("block", "ret", None):
                 ok, det = True, "tail value of a function returning io::Result"
+            elif kind == "closure" and pa.get("body") is x or (kind == "closure" and H.strip(pa.get("body") or {}) is x):
+                # the value of a closure: it goes to whoever calls the closure, and that call is a producer examined here too
+                ok, det = True, "value of a closure returning io::Result"
             elif kind == "match" and not H.is_try(pa):
                 # match on handle kind whose arms are io results, then `?`
                 gp = par.get(id(pa))
